@@ -419,10 +419,12 @@ func (q *qworld) openDisk(n *simNode) error {
 		})
 		mdb := channelstore.NewMessageDBFactoryWithOptions(fmt.Sprintf("/n%d", n.id), channelstore.MessageDBFactoryOptions{
 			// The commit coordinator holds the channel store's lock while it waits for
-			// its flush window. A 1 ns window (instead of 500 µs) closes as soon as the
-			// bubble is idle, so no store lock is held at a quiescent state and the
-			// oracles can read durable state through the same store.
-			CommitShards: 1, CommitFlushWindow: time.Nanosecond})
+			// its flush window. Any timer there can hang a bubble: a second goroutine of
+			// the repo (e.g. the repair worker's Load) that blocks on that sync.Mutex is
+			// not durably blocked, so the fake clock never reaches the timer (seen as a
+			// watchdog kill, 1 run in ~10^4, with the former 1 ns window). A negative
+			// window makes the coordinator collect without a timer.
+			CommitShards: 1, CommitFlushWindow: -1})
 		verifhook.SetPebbleHook(nil)
 		if _, err := mdb.ChannelStore("1:probe", ch.ChannelID{ID: "probe", Type: 1}); err != nil {
 			return fmt.Errorf("open MessageDB on simulated disk: %w", err)
